@@ -69,14 +69,18 @@ class PovmVecFromMatrix(E2Contract):
     targets = (PV + ":to_vec_from_matrix_with_sparsity", PV + ":to_vecs_from_matrices_with_sparsity", PV + ":to_var_from_matrices")
 
     def configs(self, tier):
-        return [("1q", 2), ("1qt", 2)] + ([("2q", 2), ("1q", 3)] if tier == "thorough" else [])
+        # third component "F": matrices handed over as transposed views (Fortran memory order)
+        return [("1q", 2), ("1qt", 2), ("1qt", 2, "F")] + ([("2q", 2), ("1q", 3), ("2q", 2, "F")] if tier == "thorough" else [])
 
     def inputs(self, W, cfg, mk):
         d = DIMS[cfg[0]]
         eps = mk.real("eps")
         mk.require(eps > 0)
         mk.require(eps <= 1e-2)
-        return dict(c_sys=make_csys(W, cfg[0]), mats=[mk.hermitian(f"M{x}", d) for x in range(cfg[1])], eps=eps)
+        mats = [mk.hermitian(f"M{x}", d) for x in range(cfg[1])]
+        if len(cfg) > 2:
+            mats = [m.T for m in mats]
+        return dict(c_sys=make_csys(W, cfg[0]), mats=mats, eps=eps)
 
     def sample(self, cfg, names, rng):
         vals = {n: rng.uniform(-1.5, 1.5) for n in names}
@@ -112,3 +116,63 @@ class PovmRoundTrip(E2Contract):
         p = inp["povm"]
         back = [W.S.vec_from_op(p.composite_system, m) for m in out]
         return [eq("inverse", back, list(p.vecs), "<B_a, to_matrices_from_vecs(vecs)[x]> == vecs[x]_a")]
+
+
+class PovmTupleIndex(E2Contract):
+    """a POVM on several subsystems (built by tensor_product, local outcome counts pairwise different) addressed by a tuple of local outcomes:
+    vec / matrix / matrix_with_sparsity of (x1..xn) is the element at the row-major position of (x1..xn) in nums_local_outcomes, and is the
+    Kronecker product of the factors' elements x1..xn"""
+    name = "Povm.vec/matrix(tuple index)"
+    prop = "C02"
+    targets = (PV + ":Povm._md_index2serial_index", PV + ":Povm.vec", PV + ":Povm.matrix", PV + ":Povm.matrix_with_sparsity")
+    may_raise = False
+
+    def configs(self, tier):
+        out = [((2, 2), (2, 3)), ((2, 2), (3, 2)), ((2, 3), (4, 3))]
+        if tier == "thorough":
+            out += [((2, 2, 2), (2, 3, 4)), ((2, 2, 2), (3, 2, 2)), ((3, 2), (2, 5))]
+        return out
+
+    def inputs(self, W, cfg, mk):
+        from .C07_all import esys, make_factor
+        dims, counts = cfg
+        es = [esys(W, k, d) for k, d in enumerate(dims)]
+        return dict(factors=[make_factor(W, mk, "povm", e, m, f"f{k}_") for k, (e, m) in enumerate(zip(es, counts))])
+
+    def run(self, W, cfg, inp):
+        import itertools
+        p = W.mod("quara.objects.operators").tensor_product(*inp["factors"])
+        idx = list(itertools.product(*[range(int(c)) for c in p.nums_local_outcomes]))
+        return dict(nums=[int(c) for c in p.nums_local_outcomes], vecs=list(p.vecs), basis=[W.S.dense(b) for b in p.composite_system.basis()],
+                    vec=[p.vec(t) for t in idx], matrix=[p.matrix(t) for t in idx],
+                    sparse=[p.matrix_with_sparsity(t) for t in idx],
+                    by_int=[p.matrix(k) for k in range(len(idx))])
+
+    def post(self, W, cfg, inp, out):
+        import itertools
+        from .C07_all import kron_all
+        dims, counts = cfg
+        S = W.S
+        nums = out["nums"]
+        idx = list(itertools.product(*[range(c) for c in nums]))
+        serial = []
+        for t in idx:
+            s = 0
+            for x, c in zip(t, nums):
+                s = s * c + x
+            serial.append(s)
+        mats = [sum(v[a] * out["basis"][a] for a in range(len(out["basis"]))) for v in out["vecs"]]
+        cl = [eq("outcome-shape", nums, list(counts), "nums_local_outcomes of the product == the factors' outcome counts (ascending subsystem names)"),
+              eq("vec(tuple)==row-major-position", out["vec"], [out["vecs"][s] for s in serial],
+                 "vec((x1..xn)) == vecs[x1*n2*..*nn + ... + xn]"),
+              eq("matrix(tuple)==row-major-position", out["matrix"], [mats[s] for s in serial], "matrix((x1..xn)) == sum_a vecs[serial]_a B_a"),
+              eq("matrix_with_sparsity(tuple)==row-major-position", out["sparse"], [mats[s] for s in serial], "the sparse variant agrees"),
+              eq("matrix(int)", out["by_int"], mats, "matrix(k) for an int index == sum_a vecs[k]_a B_a")]
+        fm = [[S.op_from_vec(f.composite_system, v) for v in f.vecs] for f in inp["factors"]]
+        ref = [kron_all(W.np, [fm[k][x] for k, x in enumerate(t)]) for t in idx]
+        cl.append(eq("matrix(tuple)==kron-of-factor-elements", out["matrix"], ref,
+                     "matrix((x1..xn)) == M1_x1 (x) ... (x) Mn_xn (uses tensor_product, whose layout is C07's obligation)"))
+        return cl
+
+    def canary(self, W, cfg, inp, out):
+        return [eq("canary", out["vec"][:2], [out["vecs"][1], out["vecs"][0]], "(false) first two outcomes swapped")]
